@@ -1,3 +1,4 @@
+import math
 import networkx as nx
 import flowpaths.stdag as stdag
 import flowpaths.abstractpathmodeldag as pathmodel
@@ -326,11 +327,14 @@ class kMinPathError(pathmodel.AbstractPathModelDAG):
         )
         
         # path slacks
+        # (a path length factor below 1 makes a unit of slack explain less than a unit of error: the slack itself can
+        # then need to be as large as w_max divided by the smallest factor)
+        self.slack_var_ub = math.ceil(self.w_max / min([1] + list(self.path_length_factors)))
         self.path_slacks_vars = self.solver.add_variables(
             self.path_indexes,
             name_prefix="slack",
             lb=0,
-            ub=self.w_max,
+            ub=self.slack_var_ub,
             var_type="integer" if self.weight_type == int else "continuous",
         )
         
@@ -338,7 +342,7 @@ class kMinPathError(pathmodel.AbstractPathModelDAG):
         # We will encode that edge_vars[(u,v,i)] * self.path_slacks_vars[(i)] = self.gamma_vars[(u,v,i)],
         # assuming self.w_max is a bound for self.path_slacks_vars[(i)]
         # The (possibly length-scaled) slack of a path is at most w_max times the largest path length factor
-        self.slack_ub = self.w_max * max([1] + list(self.path_length_factors))
+        self.slack_ub = self.slack_var_ub * max([1] + list(self.path_length_factors))
         self.gamma_vars = self.solver.add_variables(
             self.edge_indexes,
             name_prefix="gamma",
@@ -373,7 +377,7 @@ class kMinPathError(pathmodel.AbstractPathModelDAG):
                 self.path_indexes,
                 name_prefix="scaled_slack",
                 lb=0,
-                ub=self.w_max * max(self.path_length_factors),
+                ub=self.slack_var_ub * max(self.path_length_factors),
                 var_type="continuous",
             )
 
@@ -384,8 +388,9 @@ class kMinPathError(pathmodel.AbstractPathModelDAG):
                     continuous_var=self.slack_factors_vars[i],
                     product_var=self.scaled_slack_vars[i],
                     lb=0,
-                    ub=self.w_max * max(self.path_length_factors),
+                    ub=self.slack_var_ub * max(self.path_length_factors),
                     name=f"scaled_slack_i{i}",
+                    integer_ub=self.slack_var_ub,
                 )
                         
         for u, v, data in self.G.edges(data=True):
@@ -473,11 +478,14 @@ class kMinPathError(pathmodel.AbstractPathModelDAG):
 
 
         # path slacks
+        # (a path length factor below 1 makes a unit of slack explain less than a unit of error: the slack itself can
+        # then need to be as large as w_max divided by the smallest factor)
+        self.slack_var_ub = math.ceil(self.w_max / min([1] + list(self.path_length_factors)))
         self.path_slacks_vars = self.solver.add_variables(
             self.path_indexes,
             name_prefix="slack",
             lb=0,
-            ub=self.w_max,
+            ub=self.slack_var_ub,
             var_type="integer" if self.weight_type == int else "continuous",
         )
         
@@ -485,7 +493,7 @@ class kMinPathError(pathmodel.AbstractPathModelDAG):
         # We will encode that edge_vars[(u,v,i)] * self.path_slacks_vars[(i)] = self.gamma_vars[(u,v,i)],
         # assuming self.w_max is a bound for self.path_slacks_vars[(i)]
         # The (possibly length-scaled) slack of a path is at most w_max times the largest path length factor
-        self.slack_ub = self.w_max * max([1] + list(self.path_length_factors))
+        self.slack_ub = self.slack_var_ub * max([1] + list(self.path_length_factors))
         self.gamma_vars = self.solver.add_variables(
             self.edge_indexes,
             name_prefix="gamma",
@@ -520,7 +528,7 @@ class kMinPathError(pathmodel.AbstractPathModelDAG):
                 self.path_indexes,
                 name_prefix="scaled_slack",
                 lb=0,
-                ub=self.w_max * max(self.path_length_factors),
+                ub=self.slack_var_ub * max(self.path_length_factors),
                 var_type="continuous",
             )
 
@@ -531,8 +539,9 @@ class kMinPathError(pathmodel.AbstractPathModelDAG):
                     continuous_var=self.slack_factors_vars[i],
                     product_var=self.scaled_slack_vars[i],
                     lb=0,
-                    ub=self.w_max * max(self.path_length_factors),
+                    ub=self.slack_var_ub * max(self.path_length_factors),
                     name=f"scaled_slack_i{i}",
+                    integer_ub=self.slack_var_ub,
                 )
                         
         for u, v, data in self.G.edges(data=True):
